@@ -1,5 +1,7 @@
 //! C13 — WatermarkedStream under every watermark / late-data strategy.
-//! case := `<W> <L> <ts,ts,...>`  W ∈ B<delay>|M|C ; L ∈ D|A<max>|S|R ; event ids are positions.
+//! case := `<W> <L> <ev,ev,...>`  W ∈ B<delay>|M|C|P<interval> ; L ∈ D|A<max>|S|R ; event ids are positions.
+//! ev := <ts> | <ts>@<now>: `now` is the reading (ms) of the generator's processing-time clock when the event is
+//! offered (hook `watermark::verif_clock`, cfg rre_verif; default 0; the stream is created at reading 0).
 //! obs  := step;step;…  step := wm/hist/events/side/late,dropped,allowed,sidecount
 use rre_harness::*;
 use rust_rule_engine::streaming::event::StreamEvent;
@@ -7,7 +9,26 @@ use rust_rule_engine::streaming::watermark::*;
 use std::collections::HashMap;
 use std::time::Duration;
 
-fn parse_case(case: &str) -> Option<(WatermarkStrategy, LateDataStrategy, Vec<u64>)> {
+fn parse_evs(s: &str) -> Option<Vec<(u64, u64)>> {
+    if s == "-" {
+        return Some(vec![]);
+    }
+    s.split(',')
+        .map(|t| match t.split_once('@') {
+            Some((a, b)) => Some((a.parse().ok()?, b.parse().ok()?)),
+            None => Some((t.parse().ok()?, 0)),
+        })
+        .collect()
+}
+
+fn join_evs(v: &[(u64, u64)]) -> String {
+    if v.is_empty() {
+        return "-".into();
+    }
+    v.iter().map(|(t, n)| if *n == 0 { t.to_string() } else { format!("{}@{}", t, n) }).collect::<Vec<_>>().join(",")
+}
+
+fn parse_case(case: &str) -> Option<(WatermarkStrategy, LateDataStrategy, Vec<(u64, u64)>)> {
     let t: Vec<&str> = case.split_whitespace().collect();
     if t.len() != 3 {
         return None;
@@ -17,6 +38,9 @@ fn parse_case(case: &str) -> Option<(WatermarkStrategy, LateDataStrategy, Vec<u6
         "C" => WatermarkStrategy::Custom,
         s if s.starts_with('B') => WatermarkStrategy::BoundedOutOfOrder {
             max_delay: Duration::from_millis(s[1..].parse().ok()?),
+        },
+        s if s.starts_with('P') => WatermarkStrategy::Periodic {
+            interval: Duration::from_millis(s[1..].parse().ok()?),
         },
         _ => return None,
     };
@@ -29,7 +53,7 @@ fn parse_case(case: &str) -> Option<(WatermarkStrategy, LateDataStrategy, Vec<u6
         },
         _ => return None,
     };
-    Some((w, l, parse_nums(t[2])?))
+    Some((w, l, parse_evs(t[2])?))
 }
 
 fn ids(evs: &[StreamEvent]) -> String {
@@ -38,9 +62,11 @@ fn ids(evs: &[StreamEvent]) -> String {
 
 fn exec(case: &str) -> String {
     let Some((w, l, ts)) = parse_case(case) else { return "bad-case".into() };
+    verif_clock::set(Some(0));
     let mut s = WatermarkedStream::new(w, l);
     let mut steps = Vec::new();
-    for (i, t) in ts.iter().enumerate() {
+    for (i, (t, now)) in ts.iter().enumerate() {
+        verif_clock::set(Some(*now));
         let mut e = StreamEvent::with_timestamp("E", HashMap::new(), "h", *t);
         e.id = i.to_string();
         if s.add_event(e).is_err() {
@@ -59,6 +85,7 @@ fn exec(case: &str) -> String {
             st.side_output
         ));
     }
+    verif_clock::set(None);
     if steps.is_empty() { "-".into() } else { steps.join(";") }
 }
 
@@ -178,6 +205,48 @@ fn gen(rng: &mut Rng, n: usize, tier: &str) -> Vec<String> {
         };
         out.push(format!("{} {} {}", w, l, join_nums(&ts)));
     }
+    // Periodic strategy under an injected processing-time clock: intervals 0 (every on-time event emits), small and
+    // huge (never emits); clock readings that stand still, advance by less / exactly / more than the interval, jump,
+    // and run backwards (duration_since fails: no watermark); event timestamps as in the random part so that late
+    // events occur once the watermark has moved
+    for k in 0..(n / 4).max(300) {
+        let len = rng.range(1, 12) as usize;
+        let dom = *rng.pick(&[4u64, 8, 16, 40]);
+        let iv = match rng.below(6) {
+            0 => 0,
+            1 => 1,
+            2 => 3_600_000,
+            _ => rng.range(2, 12),
+        };
+        let mut now = if rng.chance(1, 3) { 0 } else { rng.below(iv.min(20) + 3) };
+        let mut evs = Vec::with_capacity(len);
+        for _ in 0..len {
+            now = match rng.below(8) {
+                0 => now,                                          // clock stands still
+                1 => now.saturating_sub(rng.range(1, 5)),          // runs backwards
+                2 => now + iv.min(1000),                           // exactly one interval
+                3 => now + iv.min(1000).saturating_sub(1),         // just short of it
+                4 => now + iv.min(1000) + 1,
+                5 => now + rng.below(4),
+                6 => now + rng.range(10, 60),
+                _ => now + rng.below(iv.min(30) + 2),
+            };
+            evs.push((rng.below(dom), now));
+        }
+        if k % 5 == 0 {
+            // ascending timestamps: every emission moves the watermark
+            let mut t = 0;
+            for e in evs.iter_mut() {
+                t += rng.range(1, 6);
+                if !rng.chance(1, 5) {
+                    e.0 = t;
+                } else {
+                    e.0 = t.saturating_sub(rng.range(1, 9));
+                }
+            }
+        }
+        out.push(format!("P{} {} {}", iv, late(rng, dom), join_evs(&evs)));
+    }
     // delays that are not round numbers of milliseconds, up to several seconds (a delay is an exact number of
     // milliseconds whatever its size), with events exactly delay / delay±1 behind the maximum
     for _ in 0..(n / 10).max(100) {
@@ -207,16 +276,24 @@ fn shrink(case: &str) -> Vec<String> {
     if t.len() != 3 {
         return vec![];
     }
-    let ts: Vec<u64> = parse_nums(t[2]).unwrap_or_default();
+    let ts: Vec<(u64, u64)> = parse_evs(t[2]).unwrap_or_default();
     let mut out: Vec<String> = shrink_list(&ts)
         .into_iter()
-        .map(|v| format!("{} {} {}", t[0], t[1], join_nums(&v)))
+        .map(|v| format!("{} {} {}", t[0], t[1], join_evs(&v)))
         .collect();
     for i in 0..ts.len() {
-        if ts[i] > 0 {
+        if ts[i].0 > 0 {
             let mut v = ts.clone();
-            v[i] /= 2;
-            out.push(format!("{} {} {}", t[0], t[1], join_nums(&v)));
+            v[i].0 /= 2;
+            out.push(format!("{} {} {}", t[0], t[1], join_evs(&v)));
+        }
+        if ts[i].1 > 0 {
+            let mut v = ts.clone();
+            v[i].1 /= 2;
+            out.push(format!("{} {} {}", t[0], t[1], join_evs(&v)));
+            let mut v = ts.clone();
+            v[i].1 = 0;
+            out.push(format!("{} {} {}", t[0], t[1], join_evs(&v)));
         }
     }
     out
